@@ -41,12 +41,19 @@ def _new_findings(prop, root):
     ctx = core.Ctx('quick', prop, repo=root)
     known = core.load_known()
     out = []
+    errs = []
     for r in mod.RULES:
-        res = r(ctx)
+        try:
+            res = r(ctx)
+        except AnalysisError as e:
+            errs.append(e)
+            continue
         for rr in (res if isinstance(res, list) else [res] if res else []):
             for f in rr.findings:
                 if not core.match_known(known, prop, f):
                     out.append(f)
+    if errs and not out:
+        raise errs[0]
     return out
 
 
